@@ -16,7 +16,7 @@ from fractions import Fraction
 import z3
 
 from vf.common import Plan, Obligation, Outcome, DISCHARGED, FAULT
-from vf.pyvc.engine import (World, T, Int, Float, Label, LabelSort, SeqT, Rec, SeqV, PyList, FloatV, Unsupp, to_int_term, real_of)
+from vf.pyvc.engine import (World, T, Int, Float, Label, LabelSort, SeqT, Rec, SeqV, PyList, FloatV, Unsupp, to_int_term, real_of, s_at)
 from vf.pyvc.contract import FnContract, Case, LoopSpec, obligations_for
 from vf.pyvc.contract import lemma as _lemma
 from vf.pyvc.interp import Interp
@@ -145,6 +145,17 @@ class FoldInterp(Interp):
             return SeqV(rev_slice_term(obj.term, hi), obj.elem, obj.is_tuple)
         return super().slice(obj, lo, hi, st)
 
+    def sym_map(self, it, i, val):
+        """[adjoint(x) for x in s] over a symbolic-length list of letters IS adjoints(s): the comprehension of a pure letterwise function
+        is the recursively defined map (its defining equations are the comprehension's append semantics)"""
+        if isinstance(val, z3.ExprRef) and isinstance(it, SeqV) and it.term.sort() == SL:
+            try:
+                if z3.is_true(z3.simplify(val == ADJ(s_at(it.term, i)))):
+                    return SeqV(MA(it.term), Label, False)
+            except z3.Z3Exception:
+                pass
+        return super().sym_map(it, i, val)
+
     def seq_binop(self, op, a, b):
         import ast
         if isinstance(op, ast.Mult):
@@ -198,6 +209,8 @@ def build(tier, seed):
             for hi in [None] + list(range(-8, 8)):
                 want = lst[:hi:-1] if hi is not None else lst[::-1]
                 s = z3.Solver()
+                s.set("timeout", 5000)
+                s.set("rlimit", 200000000)
                 t = z3.Const("t", SL)
                 labs = [z3.Const(f"l{i}", LabelSort) for i in range(n)]
                 s.add(t == (z3.Concat(*[z3.Unit(x) for x in labs]) if n > 1 else (z3.Unit(labs[0]) if n == 1 else EMPTY)))
@@ -211,7 +224,7 @@ def build(tier, seed):
         if bad:
             return Outcome(FAULT, "z3", f"reversed-slice model disagrees with CPython on (len, stop) = {bad[:5]}")
         return Outcome(DISCHARGED, "z3", "s[:stop:-1] / s[::-1] model agrees with CPython for len 0..5, stop in -8..7 and None")
-    plan.add(Obligation("C25/encoder:reversed-slice-model-agrees-with-CPython", "lemma", slice_selfcheck, bounded=True,
+    plan.add(Obligation("C25/encoder:reversed-slice-model-agrees-with-CPython", "lemma", slice_selfcheck, bounded=True, timeout=240,
                         sample="python slice.indices semantics of s[:stop:-1] on lists of length 0..5"))
 
     # ---- lemmas: each law by base + step ----------------------------------------------------------------------------------------
@@ -341,11 +354,6 @@ def build(tier, seed):
             U, n, lam, folds, frac, y, k, ops = sym_parts(o, r)
             if ops is None:
                 return False
-            if part == "counts":
-                sf, sfrac, sy, sk = spec_counts(lam, n)
-                return And(folds == sf, frac == sfrac, y == sy, k == sk,                        # the program's counts are the specified ones
-                           folds >= 0, z3.ToReal(folds) <= (lam - 1) / 2, (lam - 1) / 2 < z3.ToReal(folds) + 1, frac >= 0, frac < 2,
-                           k >= 0, k <= n, y - z3.ToReal(k) <= HALF, z3.ToReal(k) - y <= HALF)
             return ops == shape(U, MA(U), n, folds, k)
         U, n, folds, k, F, ops = native_parts(o, r, nw)
         if ops is None:
@@ -373,31 +381,22 @@ def build(tier, seed):
         """instances of the proved lemmas on the terms of this path -- only what the goal of this case needs"""
         U, n, lam, folds, frac, y, k, ops = sym_parts(o, r)
         bounds = [round_law(y), round_range(y, n), mult_bound(frac, z3.ToReal(n))]              # => 0 <= k <= n, |y - k| <= 1/2
-        if kind == "counts":
-            sf, sfrac, sy, sk = spec_counts(lam, n)
-            return bounds + [round_law(sy), sy == y]
         out = [z3.Extract(U, 0, n) == U, len_ma(U), last_k(U, k)] + bounds
         ca = getattr(loc, "adjoints", None)
         if isinstance(ca, SeqV):
             out.append(last_k_reversed(ca.term, k))
         return out
 
-    def comp_inv(v):
-        it = v.comp_it.term
-        return S.seqterm(w, v.comp_r, Label) == MA(z3.Extract(it, 0, v.comp_i))
-
-    def comp_ax(v):
-        it = v.comp_it.term
-        i = to_int_term(v.comp_i)
-        return [z3.Extract(it, 0, 0) == EMPTY, snoc_slice(it, i)] + ma_def(z3.Extract(it, 0, i), it[i])
-
     def real_tape(f):
         import pennylane as qp
         ops = []
-        for j, _lab in enumerate(f.get("operations") or []):
-            ops.append([qp.RX(0.3 + 0.1 * j, 0), qp.CNOT([0, 1]), qp.RY(0.2 + 0.07 * j, 1), qp.S(0)][j % 4])
+        for j, lab_ in enumerate(f.get("operations") or []):
+            ops.append([qp.RX(0.3 + 0.1 * j, 0), qp.CNOT([0, 1]), qp.RY(0.2 + 0.07 * j, 1), qp.S(0)][j % 4] if isinstance(lab_, str) else lab_)
         return qp.tape.QuantumScript(ops, [qp.expval(qp.Z(0))])
-    w.stub_realize = {"Tape": real_tape}
+    def real_channel(f):
+        import pennylane as qp
+        return qp.DepolarizingChannel(0.1, wires=0)
+    w.stub_realize = {"Tape": real_tape, "Channel": real_channel}
 
     def call_fold(mod, a):
         return mod.fold_global(a["tape"], a["scale_factor"])
@@ -413,10 +412,8 @@ def build(tier, seed):
         return Case(label, {"tape": T("rec", "Tape"), "scale_factor": Float},
                     requires=lambda a: (a.scale_factor.t >= 1) if isinstance(a.scale_factor, FloatV) else a.scale_factor >= 1,
                     ensures=ens, axioms=lambda o, r, nw, loc: fold_axioms(o, r, nw, loc, kind),
-                    loops={"comp1": LoopSpec(comp_inv, types={"comp_r": SeqT(Label)}, axioms=comp_ax)},
                     native_gen=fix_lambda, native_call=call_fold)
     fold = FnContract(w, "fold_global", [
-        fold_case("any-length-real-scale-factor/fold-counts", lambda o, r, nw: ens_counts_shape(o, r, nw, "counts"), "counts"),
         fold_case("any-length-real-scale-factor/shape-of-the-folded-circuit", lambda o, r, nw: ens_counts_shape(o, r, nw, "shape"), "shape")])
 
     # ---- consequences of the shape (no program involved): gate count and same unitary ----------------------------------------------
@@ -431,6 +428,12 @@ def build(tier, seed):
     repc = REP(Wc, fo_)
     SH = shape(Uc, Ac, nc, fo_, kk_)
     bounds_c = [lc >= 1, round_law(y_), round_range(y_, nc), mult_bound(fr_, z3.ToReal(nc))]
+    sf_, sfr_, sy_, sk_ = spec_counts(lc, nc)
+    plan.add(lemma("C25", "counts/the-program-text-counts-are-floor-remainder-and-round-half-even", [Uc, lc],
+                   z3.And(fo_ == sf_, fr_ == sfr_, y_ == sy_, kk_ == sk_, fo_ >= 0, z3.ToReal(fo_) <= (lc - 1) / 2, (lc - 1) / 2 < z3.ToReal(fo_) + 1,
+                          fr_ >= 0, fr_ < 2, kk_ >= 0, kk_ <= nc, y_ - z3.ToReal(kk_) <= HALF, z3.ToReal(kk_) - y_ <= HALF),
+                   assumptions=bounds_c + [round_law(sy_), sy_ == y_],
+                   sample="folds == floor((lambda-1)/2), k == round_half_even(frac*n/2), 0 <= k <= n, |frac*n/2 - k| <= 1/2"))
     lnc = z3.Length(SH)
     dc = z3.ToReal(lnc) - lc * z3.ToReal(nc)
     exact_c = lnc == nc * (1 + 2 * fo_) + 2 * kk_
@@ -448,8 +451,8 @@ def build(tier, seed):
         Case("circuit-with-a-channel-is-rejected",
              {"tape": T("build", lambda ctx, name: Rec(w.classes["Tape"], {"operations": PyList([z3.Const(ctx.fresh_name("op"), LabelSort),
                                                                                                  Rec(w.classes["Channel"], {})])}),
-                        gen=lambda rng: None), "scale_factor": Float},
-             ensures=lambda o, r, nw: False, raises={"ValueError": lambda o: True}, size_bounded=True)])
+                        gen=lambda rng: {"__class__": "Tape", "operations": ["L0", {"__class__": "Channel"}]}), "scale_factor": Float},
+             ensures=lambda o, r, nw: False, raises={"ValueError": lambda o: True}, size_bounded=True, native_call=call_fold)])
     dm = FnContract(w, "_divmod", [
         Case("divisor-2", {"a": Float, "b": T("const", 2)},
              ensures=lambda o, r, nw: And(isinstance(r, tuple) and len(r) == 2, r[0] == z3.ToInt(o.a.t / 2), r[1].t == o.a.t - 2 * z3.ToReal(z3.ToInt(o.a.t / 2)),
@@ -457,16 +460,18 @@ def build(tier, seed):
              else (r[0] == pymath.floor(Fraction(o.a) / 2) and abs(r[1] - (o.a - 2 * r[0])) < 1e-12 and 0 <= r[1] < 2))])
     def hyps_consistent(snapshot=tuple(LEMMA_HYPS)):
         bad = []
+        from vf.pyvc.engine import set_budget
         for name, asm in snapshot:
             sv = z3.Solver()
-            sv.set("timeout", 4000)
-            sv.add(*asm)
+            set_budget(sv, 4000)
+            # the quantified group axioms (satisfied by the trivial group) are left out: with them z3 only answers `unknown`, slowly
+            sv.add(*[h for h in asm if not z3.is_quantifier(h)])
             if sv.check() == z3.unsat:
                 bad.append(name)
         if bad:
             return Outcome(FAULT, "z3", f"contradictory lemma hypotheses: {bad}")
         return Outcome(DISCHARGED, "z3", f"hypotheses of {len(snapshot)} lemmas are not refutable (sat / unknown with quantified group axioms)")
-    plan.add(Obligation("C25/lemma-hypotheses-are-consistent", "lemma", hyps_consistent, bounded=True,
+    plan.add(Obligation("C25/lemma-hypotheses-are-consistent", "lemma", hyps_consistent, bounded=True, timeout=240,
                         sample="no lemma is proved from contradictory hypotheses"))
 
     for fc in (fold, ch, dm):
